@@ -62,6 +62,8 @@ pub struct SplineOpts {
     pub allow_zero_lanes: bool,
     /// force this ordered boundary pair (l, r) on every lane (index into the 5 conditions)
     pub force_pair: Option<(usize, usize)>,
+    /// force this number of points (used for the few very long axes of every run)
+    pub force_n: Option<usize>,
 }
 
 impl Default for SplineOpts {
@@ -73,6 +75,7 @@ impl Default for SplineOpts {
             max_lane_rank: 3,
             allow_zero_lanes: false,
             force_pair: None,
+            force_n: None,
         }
     }
 }
@@ -88,7 +91,10 @@ pub fn deriv_scales<T: Flt>(x: &[T], data: &ArrayD<T>) -> (f64, f64) {
 }
 
 pub fn gen_spline_case<T: Flt>(rng: &mut Rng, o: &SplineOpts) -> (Spec1<T>, Labels) {
-    let n = pick_n_long(rng, 3, o.max_n.max(3), if o.max_n >= 40 { 160 } else { 0 });
+    let n = match o.force_n {
+        Some(n) => n,
+        None => pick_n_long(rng, 3, o.max_n.max(3), if o.max_n >= 40 { 160 } else { 0 }),
+    };
     let use_default_axis = rng.chance(0.08);
     let class = *rng.pick(&AxisClass::SMOOTH);
     let x: Vec<T> = if use_default_axis {
